@@ -9,7 +9,7 @@ def main():
     hook_commits = ['5bddae4 verif hook: deterministic frame mask under --cfg tungstenite_verif']
     checks = []
     for pid in ALL:
-        if pid not in REGISTRY or not os.path.exists(os.path.join(build.COQ, 'props', pid + '.v')):
+        if pid not in REGISTRY or not all(os.path.exists(os.path.join(build.COQ, 'props', x + '.v')) for x in getattr(REGISTRY[pid], 'props_files', [pid])):
             continue
         p = REGISTRY[pid]
         checks.append({
